@@ -159,6 +159,8 @@ pub fn lift_type(reg: &LiftRegistry, ty: &syn::Type, self_ty: Option<&str>) -> R
                 }
                 "Option" if args.len() == 1 => return Ok(format!("Option<{}>", lift_type(reg, args[0], self_ty)?)),
                 "Arc" | "Box" if args.len() == 1 => return lift_type(reg, args[0], self_ty),
+                // L11: `Quantity<T, U>` without an //@ltype entry is its payload (units erased)
+                "Quantity" if args.len() == 2 && !reg.types.contains_key("Quantity") => return lift_type(reg, args[0], self_ty),
                 "EosResult" if args.len() == 1 => return Ok(format!("Result<{}, LErr>", lift_type(reg, args[0], self_ty)?)),
                 "Result" if args.len() == 2 => {
                     return Ok(format!("Result<{}, {}>", lift_type(reg, args[0], self_ty)?, lift_type(reg, args[1], self_ty)?))
@@ -910,6 +912,36 @@ impl<'a> Lifter<'a> {
         }
         let mut a = A(vec![]);
         syn::visit::Visit::visit_block(&mut a, b);
+        // a variable whose mutable view is taken in the loop (`x.lanes_mut(..)`, `x.iter_mut()`, `&mut x`) is assigned too
+        struct M<'a>(&'a mut Vec<String>);
+        impl<'ast, 'a> syn::visit::Visit<'ast> for M<'a> {
+            fn visit_expr_method_call(&mut self, m: &'ast syn::ExprMethodCall) {
+                let name = m.method.to_string();
+                if name.ends_with("_mut") || name == "assign" || name == "fill" || name.ends_with("_inplace") || name == "push" || name == "set" {
+                    if let syn::Expr::Path(p) = &*m.receiver {
+                        if let Some(i) = p.path.get_ident() {
+                            if !self.0.contains(&i.to_string()) {
+                                self.0.push(i.to_string());
+                            }
+                        }
+                    }
+                }
+                syn::visit::visit_expr_method_call(self, m);
+            }
+            fn visit_expr_reference(&mut self, r: &'ast syn::ExprReference) {
+                if r.mutability.is_some() {
+                    if let syn::Expr::Path(p) = &*r.expr {
+                        if let Some(i) = p.path.get_ident() {
+                            if !self.0.contains(&i.to_string()) {
+                                self.0.push(i.to_string());
+                            }
+                        }
+                    }
+                }
+                syn::visit::visit_expr_reference(self, r);
+            }
+        }
+        syn::visit::Visit::visit_block(&mut M(&mut a.0), b);
         a.0
     }
 
@@ -1191,7 +1223,8 @@ impl<'a> Lifter<'a> {
                 let mut text = String::from("{ ");
                 let plist: Vec<String> = self.params.iter().map(|(n, _)| n.clone()).collect();
                 for var in &vars {
-                    let ty = self.lookup(var).ok_or(format!("loop assigns unknown variable {var}"))?;
+                    // a variable that is not in scope here is local to the loop body
+                    let Some(ty) = self.lookup(var) else { continue };
                     let hname = format!("{}__havoc_{var}", self.fn_name);
                     let decl = format!(
                         "pub uninterp spec fn {hname}({}) -> {ty};",
